@@ -2,6 +2,7 @@ import TracklibVerif.Lemmas.TextIOGpx
 import TracklibVerif.Lemmas.TextIOAll3
 import TracklibVerif.Lemmas.TextIOGpxAF
 import TracklibVerif.Lemmas.TextIOWktFile
+import TracklibVerif.Lemmas.TextIOSession
 /-! # C13 — tracks and networks written to file are read back unchanged
 
 Theorems about the model `TV.TextIO` (`Model/TextIO.lean`), which mirrors
@@ -683,5 +684,66 @@ example : netRow ',' 3 ⟨"e1".toList, "a".toList, "b".toList, -1, [(0, 0), (150
 example : SepOK ';' ∧ SepOK ' ' ∧ ¬ SepOK '-' := by unfold SepOK; decide
 example : EdgeOK ',' ⟨"e1".toList, "a".toList, "b".toList, -1, [(0, 0), (1500, -2250)]⟩ := by
   unfold EdgeOK IdOK; decide
+
+/-! ### sessions: the hidden class-level state of `ObsTime` as part of the model state (`Model/TextIOSession.lean`)
+
+`TState` = (`__READ_FMT`, `__PRINT_FMT`, the memo table `__PRECOMPILED_READ_FMT`); `step` = one operation of a session on it
+(`setReadFormat` / `setPrintFormat` by the user, `str`, `readTimestamp`, `timeWithZone`, `writeToGpx`, `writeToFile` +
+`readFromCsv`); `readTimestampS` reads through the memo table of the state, `Reachable` = any history from the class body. -/
+
+/-- **`session_state_invariant`**: in every state a session can reach from the class body — any history of format changes by
+the user and of library calls — the memo table `__PRECOMPILED_READ_FMT` is the precompiled form of the CURRENT read format
+(the literal list of the class body is the precompiled default format), so `readTimestamp` in that state is `readTimestamp`
+with the read format in force: what was read or set earlier does not matter. -/
+theorem session_state_invariant (st : TState) (h : Reachable st) :
+    st.pre = precompile (tokenize st.readFmt) ∧ ∀ s, readTimestampS st s = readTimestamp (tokenize st.readFmt) s :=
+  ⟨reachable_inv st h, readTimestampS_eq st (reachable_inv st h)⟩
+
+/-- **`session_no_state_left`**: no library call of a session leaves the class-level state changed — `str`, `readTimestamp`,
+`timeWithZone` and `writeToGpx` (print format set to ISO and put back), `writeToFile` + `readFromCsv` (read format saved, set to
+the TrackFormat's copy of it, put back; when the reader raises before putting it back, the format left in force is the same
+one) — and any sequence of them leaves it as found. Only the user's `setReadFormat` / `setPrintFormat` move it. -/
+theorem session_no_state_left (st : TState) (h : Reachable st) (last : Str) :
+    (∀ op, isUser op = false → (step st last op).1 = st) ∧
+    (∀ ops, (∀ op ∈ ops, isUser op = false) → run st last ops = st) :=
+  ⟨fun op hop => library_call_leaves_no_state st last op (reachable_inv st h) hop,
+   fun ops hops => run_library_calls st last ops (reachable_inv st h) hops⟩
+
+/-- **`session_time_roundtrip`**: under ANY history of earlier format changes and library calls that leaves the read and the
+print format equal (and lossless) at the time of the pair, `str(t)` followed — after any further library calls `mid` — by
+`readTimestamp` of that text gives back the fields the format names. -/
+theorem session_time_roundtrip (st : TState) (hst : Reachable st) (heq : st.readFmt = st.printFmt)
+    (hl : Lossless (tokenize st.readFmt)) (t : Stamp) (ht : Fits t)
+    (mid : List SOp) (hmid : ∀ op ∈ mid, isUser op = false) (last : Str) :
+    (step st last (.print t)).2 = .text (printTime (tokenize st.readFmt) t) ∧
+    (step (run st (printTime (tokenize st.readFmt) t) mid) last (.read (printTime (tokenize st.readFmt) t))).2
+      = .stamp (some (project (tokenize st.readFmt) t)) :=
+  TV.TextIO.session_time_roundtrip st hst heq hl t ht mid hmid last
+
+/-- **`session_csv_roundtrip`**: `writeToFile` then `readFromCsv` as one operation of a session: in every reachable state whose
+two formats are equal, under the hypotheses of `csv_file_roundtrip` for that format, every observation comes back (the reader
+going through the memo table of the state) and the state is left as found. -/
+theorem session_csv_roundtrip (st : TState) (hst : Reachable st) (heq : st.readFmt = st.printFmt)
+    (f : CsvFmt) (geo : Bool) (h hr : Nat) (srid : Str) (rows : List Row)
+    (hv : ValidIds f) (hsep : numChar f.sep = false) (hnl : f.sep ≠ '\n')
+    (htime : f.idT ≠ -1 → TimeOK (tokenize st.printFmt) f.sep)
+    (hrows : ∀ r ∈ rows, RowOK f geo (tokenize st.printFmt) r) (hsrid : '\n' ∉ srid)
+    (hhr : hr ≤ (if h = 0 then 0 else 3)) (last : Str) :
+    ∃ text, step st last (.csv f geo h hr srid rows)
+      = (st, .csv (.ok text) (.ok (rows.map (expRow f geo (tokenize st.printFmt))))) :=
+  TV.TextIO.session_csv_roundtrip st hst heq f geo h hr srid rows hv hsep hnl htime hrows hsrid hhr last
+
+/-- a history: the user reads a text under day/month, switches both formats to month/day (a twin format), calls `timeWithZone`
+and `writeToGpx`; the state reached has equal formats, its memo table is the one of month/day, and the pair `str` /
+`readTimestamp` round-trips there: 3 April stays 3 April, while the text read FIRST under day/month meant 4 March -/
+example :
+    let hist : List SOp := [.read "03/04/2021 10:00:00".toList, .setRead "2M/2D/4Y 2h:2m:2s".toList, .setPrint "2M/2D/4Y 2h:2m:2s".toList,
+      .tz ⟨⟨2021, 4, 3, 10, 0, 0⟩, 0⟩, .gpxw "t".toList []]
+    let st := run TState.init [] hist
+    st.readFmt = st.printFmt ∧ st.pre = [((2, 'M'), 0), ((2, 'D'), 3), ((4, 'Y'), 6), ((2, 'h'), 11), ((2, 'm'), 14), ((2, 's'), 17)] ∧
+    (runOuts TState.init [] hist).map (·.1) ≠ [] ∧
+    (runOuts st [] [.print ⟨⟨2021, 4, 3, 10, 0, 0⟩, 0⟩, .readLast]).map (fun x => match x.1 with | .stamp t => t | _ => none)
+      = [none, some ⟨⟨2021, 4, 3, 10, 0, 0⟩, 0⟩] := by
+  decide +kernel
 
 end TV.C13
